@@ -300,7 +300,7 @@ def run(ctx):
         check_symmetry(ctx, chk_asan, "asan", sym_groups(ctx.rng, max(1, ng // 4)))
         # semantic leg: directed programs (fixed seeds), then generated ones
         jobs = [("d-" + n, spec, seed, w, d, p, "directed") for n, spec, w, d, p, seed in DIRECTED]
-        nprog = ctx.size(quick=36, thorough=900)
+        nprog = ctx.size(quick=24, thorough=900)
         walks = 1 if ctx.tier == "quick" else 2
         for i in range(nprog):
             rng = ctx.sub_rng("prog", i)
